@@ -250,6 +250,30 @@ def r4_cursor(ctx):
         msg = dep_closure(st, t["args"][2])
         ctx.check(any(k == "call" and d in ser for (k, d) in msg) or any(k == "call" and callee_decl(st.blocks[d].term).endswith("Vec::<T>::new") for (k, d) in msg),
                   "send_typed/sends-serialised-bytes", site_of(st, bb), "")
+    # one message per event: the buffer an event is serialised into is empty at that point - created inside the iteration, or
+    # emptied on every path back to the loop head (a refused event must not leave its bytes in front of the next one)
+    ser_calls = [(bb, t) for bb, t in st.calls() if callee_decl(t).endswith("ClientEvent::serialize")]
+    for sbb, stt in ser_calls:
+        loops = st.loops_containing(sbb)
+        if not loops:
+            ctx.bad("send_typed/serialize-in-loop", site_of(st, sbb), "serialize is not called per event", kind="anchor-missing")
+            continue
+        h, body_blocks = min(loops, key=lambda hb: len(hb[1]))
+        buf = tr.operand(stt["args"][-1])
+        news = [o.data for o in buf if o.kind == "call" and callee_decl(st.blocks[o.data].term).rsplit("::", 1)[-1] in ("new", "with_capacity", "default")]
+        fresh = bool(news) and all(nb in body_blocks for nb in news)
+        emptied = False
+        if not fresh:
+            clears = [bb for bb, t in st.calls() if bb in body_blocks and callee_decl(t).rsplit("::", 1)[-1] in ("clear", "drain", "take", "truncate", "split_off")
+                      and t.get("args") and tr.operand(t["args"][0]) & buf]
+            back = [a_ for a_ in body_blocks for (tt, _) in st.succ[a_] if tt == h]
+            after = bool(clears) and not any(st.reachable_avoiding(a_, (), start=x, removed_blocks=tuple(clears)) for a_ in back for (x, _) in st.succ[sbb])
+            # ... or emptied at the top of every iteration, before the event is serialised
+            before = bool(clears) and not any(st.reachable_avoiding(sbb, (), start=x, removed_blocks=tuple(clears)) for (x, _) in st.succ[h] if x in body_blocks)
+            emptied = after or before
+        ctx.check(fresh or emptied, "send_typed/fresh-buffer-per-event", site_of(st, sbb),
+                  "the buffer an event is serialised into is shared between iterations and not emptied on every path back to the loop head: bytes of an event that was refused "
+                  "(or of the previous event) are sent in front of the next event's bytes", "created per event" if fresh else "emptied on every path")
     reader = [a for a in F.adts if a.endswith("client_event::ClientEventReader")]
     ctx.check(bool(reader), "ClientEventReader/exists", "", "cursor resource type not found")
     # the send cursor only moves forward: nobody overwrites it (a restored checkpoint makes already-sent events unread again)
